@@ -370,9 +370,14 @@ def real_events(run: Run, count: int, toy_groups: list[dict[str, Any]]) -> list[
                                         "r": "", "s": "", "id": -1, "der": ""})
                             return None
                         sg_, kid_ = res if want_id else (res, -1)
+                        der_ = ""
+                        if want_der and ec.nlen <= 264:
+                            try:
+                                der_ = sg_.serialize().hex()
+                            except BTClibException:
+                                der_ = "the library refuses to write the signature it has just made"
                         evs.append({**base, "op": "sign", "fn": fn_name, "q": nat(q), "lows": lows, "grind": grind, "fail": False,
-                                    "r": nat(sg_.r), "s": nat(sg_.s), "id": kid_,
-                                    "der": sg_.serialize().hex() if (want_der and ec.nlen <= 264) else ""})
+                                    "r": nat(sg_.r), "s": nat(sg_.s), "id": kid_, "der": der_})
                         return sg_
 
                     sig = signed("sign_recoverable_", False, lambda: dsa.sign_recoverable_(h, q, None, lows, ec, hf), want_id=True)
